@@ -99,6 +99,10 @@ def negative(s: Session, bufs, claims2, draw_int):
         bounds.append(pos)
     inside = [i for i in range(1, len(buf)) if i not in bounds]
     tried = 0
+    # every cut inside the last instruction (the one this step emitted) ...
+    last_cuts = [i for i in inside if len(bounds) >= 2 and bounds[-2] < i < bounds[-1]]
+    rounds = [[('truncated', buf[:cut]) for cut in last_cuts]]
+    # ... plus a few drawn cuts and non-opcode insertions anywhere
     for _ in range(3):
         tests = []
         if inside:
@@ -107,6 +111,8 @@ def negative(s: Session, bufs, claims2, draw_int):
         b = bounds[draw_int(0, len(bounds) - 1)]
         bad = NON_OPCODES[draw_int(0, len(NON_OPCODES) - 1)]
         tests.append(('non-opcode %d' % bad, buf[:b] + bytes([bad]) + buf[b:]))
+        rounds.append(tests)
+    for tests in rounds:
         for what, data in tests:
             it2, _ = fresh(claims2)
             bb = list(bufs); bb[ph] = data
